@@ -57,6 +57,14 @@ func c09Plan(tier string, seed uint64) (jobs []rt.Job) {
 		}
 	}
 	add("xmss-descriptor-only", 0.5, map[string]interface{}{})
+	// several wallets alive at once: export everything first, recover afterwards, in another order
+	nw := 2
+	if !q {
+		nw = 12
+	}
+	for b := 0; b < nw; b++ {
+		add("wallets", 6, map[string]interface{}{"n": 8})
+	}
 	nd := 4
 	if !q {
 		nd = 48
@@ -130,7 +138,9 @@ func c09XMSS(r *rt.Rec, c XCfg, orig *xmss.XMSS, label string) bool {
 	routes := map[string]func() *xmss.XMSS{
 		"extended-seed": func() *xmss.XMSS { return xmss.NewXMSSFromExtendedSeed(want.ext) },
 		"mnemonic":      func() *xmss.XMSS { return xmss.NewXMSSFromExtendedSeed(misc.MnemonicToExtendedSeedBin(want.mnem)) },
-		"seed":          func() *xmss.XMSS { return xmss.NewXMSSFromSeed(orig.GetSeed(), orig.GetHeight(), xmss.HashFunction(c.HF), common.SHA256_2X) },
+		"seed": func() *xmss.XMSS {
+			return xmss.NewXMSSFromSeed(orig.GetSeed(), orig.GetHeight(), xmss.HashFunction(c.HF), common.SHA256_2X)
+		},
 	}
 	for _, name := range []string{"extended-seed", "mnemonic", "seed"} {
 		r.Eval(1)
@@ -175,6 +185,8 @@ func c09Run(j *rt.Job, seed uint64, r *rt.Rec) {
 			r.Count("fresh_xmss_keys", 1)
 			r.Sample(map[string]interface{}{"cfg": c.String(), "fresh": true})
 		}
+	case "wallets":
+		c09Wallets(j, rng, r)
 	case "xmss-descriptor-only":
 		// heights a key object cannot be built for in reasonable time: the descriptor functions alone
 		for _, h := range []int{26, 28, 30} {
@@ -303,4 +315,103 @@ func c09Replay(cs map[string]interface{}) (bool, string) {
 		return true, res.Violations[0].What
 	}
 	return false, "recovered keys equal the original"
+}
+
+// c09Wallets: a session with several wallets. Phase 1 creates them all and exports every
+// secret (the strings and arrays are kept); phase 2 recovers each wallet from the exports
+// made in phase 1, in a shuffled order, and compares it with the identity recorded then.
+func c09Wallets(j *rt.Job, rng *rt.Rand, r *rt.Rec) {
+	type xw struct {
+		c    XCfg
+		id   xIdent
+		seed [48]byte
+	}
+	type dw struct {
+		seed          [48]byte
+		pk            [2592]byte
+		addr          [20]byte
+		mnem, hexseed string
+		sig           [4595]byte
+	}
+	var xs []xw
+	var ds []dw
+	shared := rng.Seed48() // one seed used under several hash functions and heights
+	n := j.Int("n")
+	for i := 0; i < n; i++ {
+		s := rng.Seed48()
+		if i%2 == 0 {
+			s = shared
+		}
+		c := XCfg{H: []int{4, 4, 6, 4}[i%4], HF: i % 3, Seed: rt.Hex(s[:])}
+		k := c.newLib()
+		xs = append(xs, xw{c, xIdentity(c, k, 2), s})
+		d := dilLibKey(rng.Seed48())
+		sg, _ := d.Sign([]byte("wallet"))
+		ds = append(ds, dw{d.GetSeed(), d.GetPK(), d.GetAddress(), d.GetMnemonic(), d.GetHexSeed(), sg})
+	}
+	// phase 2
+	order := make([]int, n)
+	for i := range order {
+		order[i] = i
+	}
+	for a := n - 1; a > 0; a-- {
+		b := rng.Intn(a + 1)
+		order[a], order[b] = order[b], order[a]
+	}
+	for _, i := range order {
+		w := xs[i]
+		for _, route := range []string{"mnemonic", "extended-seed", "hexseed"} {
+			r.Eval(1)
+			var got xIdent
+			out := rt.Call(func() {
+				var k *xmss.XMSS
+				switch route {
+				case "mnemonic":
+					k = xmss.NewXMSSFromExtendedSeed(misc.MnemonicToExtendedSeedBin(w.id.mnem))
+				case "extended-seed":
+					k = xmss.NewXMSSFromExtendedSeed(w.id.ext)
+				default:
+					var e [51]byte
+					copy(e[:], rt.UnHex(w.id.hexseed[2:]))
+					k = xmss.NewXMSSFromExtendedSeed(e)
+				}
+				got = xIdentity(w.c, k, 2)
+			})
+			if out.Kind != rt.Value {
+				r.Violate("C09/wallets/xmss/"+route, fmt.Sprintf("recovery of wallet %d from the %s exported earlier in the session failed: %s", i, route, out), jobCase(j), "", out.String())
+				return
+			}
+			if d := w.id.diff(got); d != "" {
+				r.Violate("C09/wallets/xmss/"+route, fmt.Sprintf("wallet %d recovered from the %s exported earlier in the session differs in its %s (%s)", i, route, d, w.c), jobCase(j), "", "")
+				return
+			}
+			r.Count("session_xmss_recoveries_"+route, 1)
+			r.Distinct("session-x", w.c.Seed, w.c.H, w.c.HF, route)
+		}
+		dwl := ds[i]
+		for _, route := range []string{"mnemonic", "hexseed"} {
+			r.Eval(1)
+			var d2 *dilithium.Dilithium
+			var err error
+			out := rt.Call(func() {
+				if route == "mnemonic" {
+					d2, err = dilithium.NewDilithiumFromMnemonic(dwl.mnem)
+				} else {
+					d2, err = dilithium.NewDilithiumFromHexSeed(dwl.hexseed[2:])
+				}
+			})
+			if out.Kind != rt.Value || err != nil {
+				r.Violate("C09/wallets/dilithium/"+route, fmt.Sprintf("recovery of Dilithium wallet %d from the %s exported earlier in the session failed: %s %v", i, route, out, err), jobCase(j), "", "")
+				return
+			}
+			sg, _ := d2.Sign([]byte("wallet"))
+			if d2.GetPK() != dwl.pk || d2.GetAddress() != dwl.addr || sg != dwl.sig || d2.GetSeed() != dwl.seed {
+				r.Violate("C09/wallets/dilithium/"+route, fmt.Sprintf("Dilithium wallet %d recovered from the %s exported earlier in the session is a different wallet", i, route), jobCase(j), "", "")
+				return
+			}
+			r.Count("session_dilithium_recoveries_"+route, 1)
+			r.Distinct("session-d", rt.Hex(dwl.seed[:8]), route)
+		}
+	}
+	r.Sample(map[string]interface{}{"session_wallets": n, "phases": "export all, then recover in shuffled order", "shared_seed_under_several_configs": true})
 }
